@@ -285,10 +285,10 @@ func posOrZero(s *core.Site) token.Pos {
 func lockHashBindsSender(m *RunModel, f core.Fact, cf core.CallFact) bool {
 	// find the Ecrecover call among the bytes.Equal args
 	var ecr *ssa.Call
-	for _, a := range cf.Call.Call.Args {
+	for _, a := range core.NormCall(&cf.Call.Call).Args {
 		for _, o := range core.Origins(a) {
 			if ex, ok := o.(*ssa.Extract); ok {
-				if call, ok := ex.Tuple.(*ssa.Call); ok && strings.HasSuffix(core.CalleeName(&call.Call), "crypto.Ecrecover") {
+				if call, ok := ex.Tuple.(*ssa.Call); ok && strings.HasSuffix(core.CalleeName(core.NormCall(&call.Call)), "crypto.Ecrecover") {
 					ecr = call
 				}
 			}
@@ -299,7 +299,7 @@ func lockHashBindsSender(m *RunModel, f core.Fact, cf core.CallFact) bool {
 	}
 	// message = senderAddressHash[:]; senderAddressHash is filled by (hash.Hash).Sum(senderAddressHash[:0])
 	fn := ecr.Parent()
-	msgCell := sliceBase(ecr.Call.Args[0])
+	msgCell := sliceBase(core.NormCall(&ecr.Call).Args[0])
 	if msgCell == nil {
 		return false
 	}
